@@ -5,7 +5,7 @@
     model runs on zero bytes of those sizes (the byte-for-byte comparison on
     real data is the harness's oracle). *)
 From Coq Require Import List NArith Bool.
-From Verif Require Import Lib.Bytes Sni.Wire Sni.Hello Sni.Handover Sni.Stream Sni.StreamClose
+From Verif Require Import Lib.Bytes Sni.Wire Sni.Hello Sni.Handover Sni.Stream Sni.StreamClose Sni.SideRead
   Gen.StreamConsts Gen.HelloConsts.
 Import ListNotations.
 Local Open Scope N_scope.
@@ -59,6 +59,18 @@ Fixpoint later_reads (n : nat) (s : sstate) : list N :=
       end_code e :: match e with SBlock => [] | _ => later_reads n' s' end
   end.
 
+Definition rres_code (e : rres) : N :=
+  match e with RNil => 0 | REofS => 1 | RErrS => 2 | RBlockS => 3 end.
+
+(** Reads issued after the first end, with a 4096-byte buffer: 0 data, 1 eof, 2 error, 3 block *)
+Fixpoint later_reads_f (n : nat) (s : rstate) : list N :=
+  match n with
+  | O => []
+  | S n' =>
+      let '(got, e, s', _) := side_read_f 4096 [] s in
+      rres_code e :: match e with RBlockS => [] | _ => later_reads_f n' s' end
+  end.
+
 Inductive scase :=
 | KWrite (sizes : list N) (close_write : bool) (ns : list N) (frames : list (N * N))
 | KRead (script : list msg) (bufs : list N) (total : N) (ended : N) (later : list N)
@@ -69,7 +81,10 @@ Inductive scase :=
 (** the front stage alone: TLSHelloConn on a scripted connection; per run the
     caller buffer size, the sizes the Reads returned, and how they ended
     (1 = io.EOF) *)
-| KStage (input : bytes) (sched : list N) (runs : list (N * list N * N)).
+| KStage (input : bytes) (sched : list N) (runs : list (N * list N * N))
+(** sideConn.Read over messages that arrive as fragments (zero-length
+    messages and fragments, a message cut by the loss of the connection) *)
+| KReadF (script : list fmsg) (bufs : list N) (total : N) (ended : N) (later : list N).
 
 Definition check_case (c : scase) : bool :=
   match c with
@@ -129,6 +144,10 @@ Definition check_case (c : scase) : bool :=
                      end) runs
       | _ => false
       end
+  | KReadF script bufs total ended later =>
+      let '(outs, e, s') := side_reads_f bufs [] (mkR None script) in
+      (sumN (map lenN outs) =? total) && (rres_code e =? ended) &&
+      list_eqb N.eqb (later_reads_f (List.length later) s') later
   | KClose mode client_closes first_ended later_ended =>
       let p := corr_policy mode in
       let s0 := fire p (if client_closes then EClientClose else EAppClose) cinit in
